@@ -608,11 +608,14 @@ def par_run_lines(ctx, argv, lines, timeout, nproc=14, chunk=None):
     if len(lines) < 40:
         return ctx.run_lines(argv, lines, timeout=timeout, chunk=chunk)
     n = min(nproc, max(1, len(lines) // 20))
-    size = (len(lines) + n - 1) // n
-    chunks = [lines[i:i + size] for i in range(0, len(lines), size)]
+    # round robin, so that a run of expensive requests (one stream of the generators) is spread over all workers
+    parts_in = [lines[w::n] for w in range(n)]
     with concurrent.futures.ThreadPoolExecutor(max_workers=n) as ex:
-        parts = list(ex.map(lambda ch: ctx.run_lines(argv, ch, timeout=timeout, chunk=chunk), chunks))
-    return [o for part in parts for o in part]
+        parts = list(ex.map(lambda ch: ctx.run_lines(argv, ch, timeout=timeout, chunk=chunk), parts_in))
+    out = [None] * len(lines)
+    for w in range(n):
+        out[w::n] = parts[w]
+    return out
 
 
 def harness_run(ctx, hl, kinds):
@@ -665,8 +668,8 @@ def run(ctx):
         return replay(ctx, drv)
     rng = ctx.rng
     q = ctx.quick
-    N = dict(merge=250 if q else 1500, node=250 if q else 1500, poly=200 if q else 1200, shared=150 if q else 900,
-             lr=500 if q else 3000)
+    N = dict(merge=250 if q else 2000, node=250 if q else 2000, poly=200 if q else 1600, shared=150 if q else 1200,
+             lr=500 if q else 4000)
     cases = []
     corpus = os.path.join(ROOT, 'gen/corpus/C19.jsonl')
     if os.path.exists(corpus):
